@@ -442,7 +442,10 @@ class Exec:
         if rhs.startswith(('move ', 'copy ', 'const ', 'no_retag ')):
             m = re.match(r'^(.*?) as (.*) \((\w+(?:\(.*\))?)\)$', rhs)
             if m and not rhs.startswith('const '):
-                return self.operand(m.group(1), st)          # casts are transparent
+                if m.group(3) in ('IntToInt', 'FloatToInt', 'IntToFloat', 'FloatToFloat'):
+                    # numeric conversions can lose information (machine words): an uninterpreted function per target type
+                    return T(mk_fn('cast_' + re.sub(r'\W', '_', m.group(2)), 1)(to_term(self.operand(m.group(1), st))))
+                return self.operand(m.group(1), st)          # pointer / unsizing casts are transparent
             if m and rhs.startswith('const '):
                 return Cst(norm_callee(m.group(1)[6:]))
             return self.operand(rhs, st)
